@@ -33,6 +33,22 @@ package lexer
 //@   ensures cnt(p, a) <= cnt(p, b) && cnt(p, b) - cnt(p, a) <= b - a
 //@   induction b from a
 
+// A user-supplied Lexer: nothing is known about the tokens it returns. Assumed (not checked): it does not
+// write memory owned by the code under contract (the PeekingLexer under construction is unreachable from it).
+//@ interface Lexer.Next
+//@   params lx
+
+//@ func Upgrade [C12 C10 C15]
+//@   requires lex != nil
+//@   ensures result1 == nil ==> result0 != nil && fresh(result0) && plInv(result0) && result0.rawCursor == 0 && result0.cursor == 0
+//@   ensures result1 == nil ==> forall(t, result0.elide[t] == exists(i, 0, len(elide), elide[i] == t))
+//@   loop 1 invariant r != nil && fresh(r) && r.elide != nil && fresh(r.elide) && len(r.tokens) == 0 && r.Checkpoint == Checkpoint{0, 0, 0} && -1 <= rangeindex && rangeindex < len(elide)
+//@   loop 1 invariant forall(t, r.elide[t] == exists(i, 0, rangeindex+1, elide[i] == t))
+//@   loop 1 decreases len(elide) - rangeindex
+//@   loop 2 invariant r != nil && fresh(r) && r.Checkpoint == Checkpoint{0, 0, 0} && forall(k, 0, len(r.tokens), r.tokens[k].Type != EOF)
+//@   loop 2 invariant forall(t, r.elide[t] == exists(i, 0, len(elide), elide[i] == t))
+//@   loop 2 nonterminating-ok
+
 //@ func (*PeekingLexer).Range [C12 C11 C06]
 //@   requires 0 <= rawStart && rawStart <= rawEnd && rawEnd <= len(p.tokens)
 //@   pure
@@ -109,6 +125,17 @@ package lexer
 // ---------------------------------------------------------------------------------------------
 // api.go
 // ---------------------------------------------------------------------------------------------
+
+//@ func ConsumeAll [C07 C15]
+//@   requires lexer != nil
+//@   ensures result1 == nil ==> len(result0) >= 1 && result0[len(result0)-1].Type == EOF && forall(k, 0, len(result0)-1, result0[k].Type != EOF)
+//@   ensures result1 != nil ==> result0 == nil
+//@   loop 1 invariant forall(k, 0, len(tokens), tokens[k].Type != EOF)
+//@   loop 1 nonterminating-ok
+
+//@ func EOFToken [C04 C07]
+//@   pure
+//@   ensures result.Type == EOF && result.Value == "" && result.Pos == pos
 
 // Position arithmetic. nlc / lastnl / rcount are the (trusted) meanings of strings.Count(s,"\n"),
 // strings.LastIndex(s,"\n") and utf8.RuneCountInString(s); see /verif/stubs/stdlib.spec.
